@@ -96,6 +96,9 @@ fn run_once(rec: &mut Recorder, w: &mut World, cached: bool, hist: &[St], reqf: 
         outs.push(rec.exec(w, &format!("e.enfx\tr2\tp2\te2\tm2\t{}", reqf)));
         // ... and one that differs from it only in the effect section
         outs.push(rec.exec(w, &format!("e.enfx\tr2\tp2\te\tm2\t{}", reqf)));
+        // ... and one that keeps the default request, policy and matcher sections and switches the effect section only
+        // (asked right after the plain requests: the two must not share an answer)
+        outs.push(rec.exec(w, &format!("e.enfx\tr\tp\te2\tm\t{}", reqf)));
     };
     ask(rec, w, &mut outs);
     for s in hist {
